@@ -1,10 +1,10 @@
 #!/bin/bash
 # usage: process_seed2.sh <Cnn> [more checks...] — second-round seed: save, confirm, run the checks against it.
 id="$1"; shift; checks="${@:-$id}"
-export MUT=/var/tmp/mut2
-mkdir -p /verif/seeded/${id}_2
-for f in patch.diff demo.sh notes.txt; do cp -f $MUT/out_$id/$f /verif/seeded/${id}_2/ 2>/dev/null; done
-git -C $MUT/wt_$id diff > /var/tmp/mut2/out_$id/patch_check.diff
-cmp -s /var/tmp/mut2/out_$id/patch_check.diff /verif/seeded/${id}_2/patch.diff || { echo "NOTE: patch.diff differs from the worktree diff; using the worktree diff"; cp /var/tmp/mut2/out_$id/patch_check.diff /verif/seeded/${id}_2/patch.diff; }
+export MUT=${MUTBASE:-/var/tmp/mut2}
+mkdir -p /verif/seeded/${id}${SUF:-_2}
+for f in patch.diff demo.sh notes.txt; do cp -f $MUT/out_$id/$f /verif/seeded/${id}${SUF:-_2}/ 2>/dev/null; done
+git -C $MUT/wt_$id diff > $MUT/out_$id/patch_check.diff
+cmp -s $MUT/out_$id/patch_check.diff /verif/seeded/${id}${SUF:-_2}/patch.diff || { echo "NOTE: patch.diff differs from the worktree diff; using the worktree diff"; cp $MUT/out_$id/patch_check.diff /verif/seeded/${id}${SUF:-_2}/patch.diff; }
 /verif/tools/confirm_seed.sh $id
-/verif/tools/seedtest.sh /verif/seeded/${id}_2/patch.diff $checks
+/verif/tools/seedtest.sh /verif/seeded/${id}${SUF:-_2}/patch.diff $checks
